@@ -1,4 +1,4 @@
-import NunavutVerif.Lemmas.Float16All
+import NunavutVerif.Lemmas.Float16Law
 /-!
 # C14 (float part) — half-precision conversion of the generated C / C++ support code
 
@@ -11,7 +11,9 @@ The unbounded part is a proof (bit operations → arithmetic, `pack` factors thr
 exact scaling for exponent field ≥ 113, collapse to zero for exponent field ≤ 100); the kernel evaluates finite
 tables only for the 24 576 keys with exponent field 101..112 and for the 65 536 binary16 patterns.
 
-Modelled, not proved: the hardware binary32 multiplication is `f32mul` (IEEE-754 round-to-nearest-even).
+Modelled, not proved: the hardware binary32 multiplication / addition are `f32mul` / `f32add` (IEEE-754
+round-to-nearest-even).  `pack` is the packer as shipped (ties away from zero), `packRneC` the repaired one
+(ties to even); both theorem sets are kept, the harness ties the one whose shape the template has.
 -/
 namespace NunavutVerif.Float16
 
@@ -26,7 +28,7 @@ theorem C14_unpack_exact (h : Nat) (hh : h < 65536) (hf : F16.isFinite h = true)
   have hn : F16.isNaN h = false := (F16.isNaN_false_iff h).2 (by omega)
   have hi : F16.isInf h = false := (F16.isInf_false_iff h).2 (by omega)
   obtain ⟨h1, h2, _, h4⟩ := sp
-  obtain ⟨_, _, _, h5⟩ := h4 hn
+  obtain ⟨_, _, _, _, h5⟩ := h4 hn
   obtain ⟨h6, h7⟩ := h5 hi
   refine ⟨h6, ?_⟩
   rw [F32.val_eq _ h1, F16.val_eq h hh, h7]
@@ -50,7 +52,7 @@ theorem C14_unpack_inf_nan (h : Nat) (hh : h < 65536) :
   have sp := chkHalf_spec h (chkHalf_all h hh)
   obtain ⟨h1, h2, h3, h4⟩ := sp
   cases hn : F16.isNaN h
-  · obtain ⟨_, _, h5, h6⟩ := h4 hn
+  · obtain ⟨_, _, _, h5, h6⟩ := h4 hn
     cases hi : F16.isInf h
     · have hf := (h6 hi).1
       have := (F32.isFinite_iff (unpack h)).1 hf
@@ -73,30 +75,21 @@ theorem C14_roundtrip (h : Nat) (hh : h < 65536) :
 /-- The result is a 16-bit pattern carrying the sign bit of the argument (also for NaNs and zeros). -/
 theorem C14_pack_sign (x : Nat) (hx : x < 4294967296) :
     pack x < 65536 ∧ F16.neg (pack x) = F32.neg x := by
-  exact ⟨pack_lt x hx, F16.neg_pack x hx⟩
+  exact ⟨gen_lt packs_pack magLaw_pack x hx, gen_neg packs_pack magLaw_pack x hx⟩
 
 /-- NaN ↦ NaN, and only NaNs. -/
 theorem C14_pack_nan (x : Nat) (hx : x < 4294967296) : F16.isNaN (pack x) = F32.isNaN x := by
-  apply bool_eq_of_iff
-  rw [F16.isNaN_iff, F32.isNaN_iff, pack_mod x hx]
-  exact packMag_nan _ (by omega)
+  exact gen_nan packs_pack magLaw_pack x hx
 
 /-- ±infinity ↦ ±infinity. -/
 theorem C14_pack_inf (x : Nat) (hx : x < 4294967296) (hi : F32.isInf x = true) : F16.isInf (pack x) = true := by
-  have := (F32.isInf_iff x).1 hi
-  rw [F16.isInf_iff, pack_mod x hx, this]
-  exact packMag_inf
+  exact gen_inf packs_pack magLaw_pack x hx hi
 
 /-- The overflow boundary the code really has: a finite argument becomes ±infinity exactly when
 `|x| ≥ 65520` (= the midpoint between the largest finite half 65504 and 2^16, the IEEE-754 threshold). -/
 theorem C14_pack_overflow (x : Nat) (hx : x < 4294967296) (hf : F32.isFinite x = true) :
     F16.isInf (pack x) = true ↔ 65520 * 2 ^ 149 ≤ F32.mag x := by
-  have hfin := (F32.isFinite_iff x).1 hf
-  have hm : F32.mag 1199566848 = 65520 * 2 ^ 149 := by decide
-  rw [F16.isInf_iff, pack_mod x hx, packMag_overflow _ hfin, F32.mag_mod x, ← hm]
-  constructor
-  · intro h; exact F32.mag_mono _ _ h (by omega)
-  · intro h; exact F32.le_of_mag_le _ _ (by omega) h
+  exact gen_overflow packs_pack magLaw_pack x hx hf
 
 /-- Below the threshold (`|x| < 65520`, which excludes infinities and NaNs) the result is finite and is a
 **nearest** finite half: no finite half is closer to the argument.  (Stronger than "faithful".) -/
@@ -104,39 +97,7 @@ theorem C14_pack_nearest (x : Nat) (hx : x < 4294967296) (hlt : F32.mag x < 6552
     F16.isFinite (pack x) = true ∧
     ∀ h, h < 65536 → F16.isFinite h = true →
       (F16.val (pack x) - F32.val x).natAbs ≤ (F16.val h - F32.val x).natAbs := by
-  have hm : F32.mag 1199566848 = 65520 * 2 ^ 149 := by decide
-  have ha : x % 2147483648 < 1199566848 := by
-    by_cases c : x % 2147483648 < 1199566848
-    · exact c
-    · have := F32.mag_mono 1199566848 (x % 2147483648) (by omega) (by omega)
-      rw [← F32.mag_mod x, hm] at this
-      omega
-  obtain ⟨hr, hbr⟩ := packMag_bracket _ ha
-  refine ⟨(F16.isFinite_iff _).2 (by rw [pack_mod x hx]; exact hr), ?_⟩
-  intro h hh hhf
-  have hq := (F16.isFinite_iff h).1 hhf
-  have n1 := nearest_of_bracket _ _ (h % 32768) hbr hr hq
-  have n0 := nearest_of_bracket _ _ 0 hbr hr (by omega)
-  have z : F16.mag 0 = 0 := by decide
-  rw [z] at n0
-  rw [← F16.mag_mod h, ← F32.mag_mod x, ← F16.mag_pack x hx] at n1
-  rw [← F32.mag_mod x, ← F16.mag_pack x hx] at n0
-  have hd := pack_div x hx
-  have hl := pack_lt x hx
-  rw [F32.val_eq x hx, F16.val_eq _ hl, F16.val_eq h hh]
-  unfold dist at n0 n1
-  generalize F16.mag (pack x) = M at *
-  generalize F32.mag x = v at *
-  generalize F16.mag h = P at *
-  by_cases s1 : 2147483648 ≤ x
-  · rw [if_pos s1, if_pos (by omega)]
-    by_cases s2 : 32768 ≤ h
-    · rw [if_pos s2]; omega
-    · rw [if_neg s2]; omega
-  · rw [if_neg s1, if_neg (by omega)]
-    by_cases s2 : 32768 ≤ h
-    · rw [if_pos s2]; omega
-    · rw [if_neg s2]; omega
+  exact gen_nearest packs_pack magLaw_pack x hx hlt
 
 /-- Faithfulness: no finite half lies strictly between the argument and the result; in particular the
 result is the argument itself whenever that is representable. -/
@@ -145,11 +106,7 @@ theorem C14_pack_faithful (x : Nat) (hx : x < 4294967296)
     ¬ (F16.val (pack x) < F16.val h ∧ F16.val h < F32.val x) ∧
     ¬ (F32.val x < F16.val h ∧ F16.val h < F16.val (pack x)) ∧
     (F16.val h = F32.val x → F16.val (pack x) = F32.val x) := by
-  have hn := (C14_pack_nearest x hx hlt).2 h hh hhf
-  refine ⟨?_, ?_, ?_⟩
-  · intro ⟨h1, h2⟩; omega
-  · intro ⟨h1, h2⟩; omega
-  · intro he; rw [he] at hn; omega
+  exact gen_faithful packs_pack magLaw_pack x hx hlt h hh hhf
 
 /-- Every finite half is strictly inside the threshold, so for `|x| ≥ 65520` the infinity delivered by
 `C14_pack_overflow` is the representable neighbour on the far side (nothing finite lies beyond `x`). -/
@@ -164,50 +121,7 @@ keeps the order of the extended reals inside each format). -/
 theorem C14_pack_monotone (x y : Nat) (hx : x < 4294967296) (hy : y < 4294967296)
     (nx : F32.isNaN x = false) (ny : F32.isNaN y = false) (hle : F32.val x ≤ F32.val y) :
     F16.val (pack x) ≤ F16.val (pack y) := by
-  have ha := (F32.isNaN_false_iff x).1 nx
-  have hb := (F32.isNaN_false_iff y).1 ny
-  have hlx := pack_lt x hx
-  have hly := pack_lt y hy
-  have hdx := pack_div x hx
-  have hdy := pack_div y hy
-  -- order of magnitudes ↦ order of result magnitudes
-  have key : ∀ a b, a ≤ 2139095040 → b ≤ 2139095040 → F32.mag a ≤ F32.mag b →
-      F16.mag (packMag a) ≤ F16.mag (packMag b) := by
-    intro a b _ hb' hab
-    exact F16.mag_mono _ _ (packMag_mono a b (F32.le_of_mag_le a b (by omega) hab) hb') (packMag_lt b)
-  have zero : ∀ a, a ≤ 2139095040 → F32.mag a = 0 → F16.mag (packMag a) = 0 := by
-    intro a _ h0
-    have : a = 0 := by
-      by_cases c : a = 0
-      · exact c
-      · have := F32.mag_strict 0 a (by omega) (by omega)
-        have z : F32.mag 0 = 0 := by decide
-        omega
-    subst this
-    rw [packMag_fin 0 (by omega), packKey_zero _ (by omega)]
-    decide
-  have kxy := key _ _ ha hb
-  have kyx := key _ _ hb ha
-  have zx := zero _ ha
-  have zy := zero _ hb
-  rw [← F32.mag_mod x, ← F32.mag_mod y, ← F16.mag_pack x hx, ← F16.mag_pack y hy] at kxy kyx
-  rw [← F32.mag_mod x, ← F16.mag_pack x hx] at zx
-  rw [← F32.mag_mod y, ← F16.mag_pack y hy] at zy
-  rw [F32.val_eq x hx, F32.val_eq y hy] at hle
-  rw [F16.val_eq _ hlx, F16.val_eq _ hly]
-  generalize F16.mag (pack x) = Mx at *
-  generalize F16.mag (pack y) = My at *
-  generalize F32.mag x = vx at *
-  generalize F32.mag y = vy at *
-  by_cases s1 : 2147483648 ≤ x
-  · rw [if_pos s1] at hle; rw [if_pos (show 32768 ≤ pack x by omega)]
-    by_cases s2 : 2147483648 ≤ y
-    · rw [if_pos s2] at hle; rw [if_pos (show 32768 ≤ pack y by omega)]; omega
-    · rw [if_neg s2] at hle; rw [if_neg (show ¬ 32768 ≤ pack y by omega)]; omega
-  · rw [if_neg s1] at hle; rw [if_neg (show ¬ 32768 ≤ pack x by omega)]
-    by_cases s2 : 2147483648 ≤ y
-    · rw [if_pos s2] at hle; rw [if_pos (show 32768 ≤ pack y by omega)]; omega
-    · rw [if_neg s2] at hle; rw [if_neg (show ¬ 32768 ≤ pack y by omega)]; omega
+  exact gen_monotone packs_pack magLaw_pack x y hx hy nx ny hle
 
 /-- The `2^(emax+1)` convention is order-preserving: every finite pattern is strictly below the infinity of
 its format in magnitude. -/
@@ -235,13 +149,83 @@ theorem C14_packRne_roundtrip (h : Nat) (hh : h < 65536) :
     (F16.isNaN h = false → packRne (unpack h) = h) ∧
     (F16.isNaN h = true → F16.isNaN (packRne (unpack h)) = true) := by
   have sp := chkHalf_spec h (chkHalf_all h hh)
-  exact ⟨fun hn => (sp.2.2.2 hn).2.1, fun hn => (sp.2.2.1 hn).2.2⟩
+  exact ⟨fun hn => (sp.2.2.2 hn).2.1, fun hn => (sp.2.2.1 hn).2.2.1⟩
+
+/-! ## the repaired packer `packRneC` (ties to even; fix for F14) — all 2^32 patterns
+
+Same statements as for `pack`, plus ties-to-even and the equality with the round-to-nearest-even model
+`packRne` of the Python target.  Which of the two theorem sets applies to the tree under check is decided by
+the harness from the shape of the template (`mant_odd` present ⇒ `packRneC`). -/
+
+theorem C14_packRneC_sign (x : Nat) (hx : x < 4294967296) :
+    packRneC x < 65536 ∧ F16.neg (packRneC x) = F32.neg x := by
+  exact ⟨gen_lt packs_packRneC magLaw_packRneC x hx, gen_neg packs_packRneC magLaw_packRneC x hx⟩
+
+theorem C14_packRneC_nan (x : Nat) (hx : x < 4294967296) : F16.isNaN (packRneC x) = F32.isNaN x := by
+  exact gen_nan packs_packRneC magLaw_packRneC x hx
+
+theorem C14_packRneC_inf (x : Nat) (hx : x < 4294967296) (hi : F32.isInf x = true) :
+    F16.isInf (packRneC x) = true := by
+  exact gen_inf packs_packRneC magLaw_packRneC x hx hi
+
+/-- Same overflow boundary as before the repair: `|x| ≥ 65520` ⇔ ±infinity. -/
+theorem C14_packRneC_overflow (x : Nat) (hx : x < 4294967296) (hf : F32.isFinite x = true) :
+    F16.isInf (packRneC x) = true ↔ 65520 * 2 ^ 149 ≤ F32.mag x := by
+  exact gen_overflow packs_packRneC magLaw_packRneC x hx hf
+
+theorem C14_packRneC_nearest (x : Nat) (hx : x < 4294967296) (hlt : F32.mag x < 65520 * 2 ^ 149) :
+    F16.isFinite (packRneC x) = true ∧
+    ∀ h, h < 65536 → F16.isFinite h = true →
+      (F16.val (packRneC x) - F32.val x).natAbs ≤ (F16.val h - F32.val x).natAbs := by
+  exact gen_nearest packs_packRneC magLaw_packRneC x hx hlt
+
+theorem C14_packRneC_faithful (x : Nat) (hx : x < 4294967296)
+    (hlt : F32.mag x < 65520 * 2 ^ 149) (h : Nat) (hh : h < 65536) (hhf : F16.isFinite h = true) :
+    ¬ (F16.val (packRneC x) < F16.val h ∧ F16.val h < F32.val x) ∧
+    ¬ (F32.val x < F16.val h ∧ F16.val h < F16.val (packRneC x)) ∧
+    (F16.val h = F32.val x → F16.val (packRneC x) = F32.val x) := by
+  exact gen_faithful packs_packRneC magLaw_packRneC x hx hlt h hh hhf
+
+theorem C14_packRneC_monotone (x y : Nat) (hx : x < 4294967296) (hy : y < 4294967296)
+    (nx : F32.isNaN x = false) (ny : F32.isNaN y = false) (hle : F32.val x ≤ F32.val y) :
+    F16.val (packRneC x) ≤ F16.val (packRneC y) := by
+  exact gen_monotone packs_packRneC magLaw_packRneC x y hx hy nx ny hle
+
+/-- Ties go to even: if `|x|` is exactly half-way between the adjacent finite halves with magnitude patterns
+`p` and `p+1`, the result has the even one of the two patterns (and the sign of `x`). -/
+theorem C14_packRneC_ties_to_even (x p : Nat) (hx : x < 4294967296) (hp : p + 1 < 31744)
+    (hmid : 2 * F32.mag x = F16.mag p + F16.mag (p + 1)) :
+    packRneC x % 32768 = if p % 2 = 0 then p else p + 1 := by
+  have s1 := F16.mag_strict p (p + 1) (by omega) (by omega)
+  have t := C14_half_below_threshold (p + 1) ((F16.isFinite_iff _).2 (by omega))
+  have hlt : F32.mag x < 65520 * 2 ^ 149 := by omega
+  have ha := gen_below x hlt
+  obtain ⟨hr, hb⟩ := packMag2_bracket _ ha
+  rw [gen_mod packs_packRneC magLaw_packRneC x hx]
+  exact even_of_bracketEven _ _ p hb hr hp (by rw [← F32.mag_mod x]; exact hmid)
+
+/-- Round trip through the repaired packer. -/
+theorem C14_packRneC_roundtrip (h : Nat) (hh : h < 65536) :
+    (F16.isNaN h = false → packRneC (unpack h) = h) ∧
+    (F16.isNaN h = true → F16.isNaN (packRneC (unpack h)) = true) := by
+  have sp := chkHalf_spec h (chkHalf_all h hh)
+  exact ⟨fun hn => (sp.2.2.2 hn).2.2.1, fun hn => (sp.2.2.1 hn).2.2.2⟩
+
+/-- The repaired C/C++ packer and the round-to-nearest-even model of the Python target
+(`struct.pack("<e", …)`) are the same function on all `2^32` patterns (this is the cross-target statement behind
+F14; the tie of `packRne` to CPython is by correspondence, see the harness). -/
+theorem C14_packRneC_eq_packRne (x : Nat) (hx : x < 4294967296) : packRneC x = packRne x := by
+  rw [packRneC_eq x hx, packRne_eq x hx]
 
 /-! ## the behaviour on ties, as it is (documented for F14; not demanded by C14) -/
 
 /-- Ties go away from zero: `1 + 2^-11` packs to `0x3C01` (round-to-nearest-even would give `0x3C00`),
 `2^-25` packs to `0x0001`. -/
 example : pack 0x3F801000 = 0x3C01 ∧ packRne 0x3F801000 = 0x3C00 ∧ pack 0x33000000 = 1 ∧ packRne 0x33000000 = 0 := by
+  decide
+/-- The packer before the repair does not round ties to even (regression witness for F14). -/
+example : ¬ (pack 0x3F801000 % 32768 = if 0x3C00 % 2 = 0 then 0x3C00 else 0x3C00 + 1) ∧
+    2 * F32.mag 0x3F801000 = F16.mag 0x3C00 + F16.mag (0x3C00 + 1) ∧ packRneC 0x3F801000 = 0x3C00 := by
   decide
 
 /-! ## non-vacuity -/
@@ -250,5 +234,7 @@ example : F32.isFinite 0x477FEFFF = true ∧ F32.mag 0x477FEFFF < 65520 * 2 ^ 14
 example : F32.isFinite 0x477FF000 = true ∧ F32.mag 0x477FF000 = 65520 * 2 ^ 149 ∧ pack 0x477FF000 = 0x7C00 := by decide
 example : F16.isNaN 0xFE01 = true ∧ F16.isNaN (pack (unpack 0xFE01)) = true ∧ pack (unpack 0xFE01) ≠ 0xFE01 := by decide
 example : F32.val 0xBF800000 ≤ F32.val 0x00000001 ∧ F16.val (pack 0xBF800000) ≤ F16.val (pack 0x00000001) := by decide
+example : packRneC 0x3F800000 = 0x3C00 ∧ packRneC 0x477FEFFF = 0x7BFF ∧ packRneC 0x477FF000 = 0x7C00 ∧
+    packRneC 0x33000001 = 1 ∧ packRneC 0x33000000 = 0 ∧ packRneC 0xFFC00001 = 0xFE00 := by decide
 
 end NunavutVerif.Float16
